@@ -8,7 +8,7 @@
     lr.Parser.Parse / ParseAndBuildAST, for every grammar, table and input. *)
 From Coq Require Import List ZArith.
 From Algo.Grammar Require Import CFG.
-From Algo.C11 Require Import Model Spec Proofs ProofsTerm ProofsOracle.
+From Algo.C11 Require Import Model ModelPrec ModelSLR Spec Proofs ProofsTerm ProofsOracle ProofsPrec ProofsPrecExpr.
 Import ListNotations.
 
 (** Soundness of the driver over any certified table: if [Parse] accepts [w] then [w] is a
@@ -43,6 +43,90 @@ Proof.
   split; [exact H|]. intros fuel' Hle. now apply parse_fuel_irrelevant.
 Qed.
 
+(** Precedence, at the level of [resolveConflict] (for every list of levels, every pair of
+    operators and both iteration orders of the action set): the shift/reduce conflict between
+    shifting [o2] and reducing a production whose first terminal is [o1] is resolved to the
+    reduction iff [o1] binds tighter or both are on one LEFT level, to the shift iff [o2] binds
+    tighter or both are on one RIGHT level, and stays a conflict otherwise. *)
+Theorem C11_prec_resolve :
+  forall (ls : levels) (o1 o2 : nat) (t : Z) (p : prod),
+    first_terminal (body p) = Some o1 ->
+    let answer := match group_left ls o1 o2 with
+                  | Some true => Some (Reduce p) | Some false => Some (Shift t) | None => None end in
+    resolve_conflict ls (Some o2) [Shift t; Reduce p] = answer /\
+    resolve_conflict ls (Some o2) [Reduce p; Shift t] = answer.
+Proof. intros ls o1 o2 t p Hp. exact (resolve_shift_reduce ls o1 o2 t p Hp). Qed.
+
+(** Precedence, at the level of the parser: for E -> E op E | ( E ) | id with 1, 2 or 3
+    operators and every declaration [ls] (every ordered partition of the operators into levels,
+    every associativity per level: 3 + 21 + 219 declarations), the modelled SLR construction
+    with ResolveConflicts either yields a table whose parser accepts [id o1 id o2 id] and
+    builds the tree that groups to the left iff [group_left ls o1 o2 = Some true] (and to the
+    right iff [Some false]), or reports a conflict exactly because some pair of operators is
+    left undetermined by the declaration (a NONE level). *)
+Theorem C11_prec :
+  forall (ops : list nat) (ls : levels) (o1 o2 : nat),
+    In ops [[15]; [15; 16]; [15; 16; 19]] -> In ls (assignments ops) -> In o1 ops -> In o2 ops ->
+    match build_slr 60 (expr_grammar ops) ls with
+    | BuiltOk tbl =>
+        exists b evs, group_left ls o1 o2 = Some b /\
+          parse 200 tbl [tI; o1; tI; o2; tI] = Accepted evs /\
+          ast_of evs = grouped b o1 o2
+    | BuiltConflict _ => exists a b, In a ops /\ In b ops /\ group_left ls a b = None
+    | _ => False
+    end.
+Proof. intros ops ls o1 o2. apply prec_grouping. Qed.
+
+(** The full statement of the property.  [build] stands for one of the three Go constructions
+    seen as a function from grammars to "table or conflict".  What is proved above: the
+    driver half (soundness, derivation, AST, termination) for every table that passes the
+    certificates; the certificates are evaluated on every table the Go code builds, on every run.
+    What is NOT proved and is searched per instance instead (bounded, against [lang_upto]):
+    that the constructions always produce certified tables, completeness (every sentence is
+    accepted), SLR => LALR => LR(1) success and agreement of the accepted languages. *)
+Definition reduced (G : gram) : Prop :=
+  (forall A, In A (nonterms G) -> exists u v, derives G [Nt (start G)] (u ++ Nt A :: v)) /\
+  (forall A, In A (nonterms G) -> exists x, derives G [Nt A] (map Tm x)).
+
+Definition recognises (G : gram) (tbl : table) : Prop :=
+  forall w, exists fuel,
+    (forall f, fuel <= f -> parse f tbl w = parse fuel tbl w) /\
+    match parse fuel tbl w with
+    | Accepted evs => L G w /\ rightmost_reverse G (prods_of evs) w /\
+                      yield (ast_of evs) = map Some w /\ postorder (ast_of evs) = prods_of evs
+    | Rejected _ _ => ~ L G w
+    | Hang => False
+    end.
+
+Definition C11_full (build_slr build_lalr build_clr : gram -> option table) : Prop :=
+  forall G, reduced G ->
+    (forall t, build_slr G = Some t -> recognises G t) /\
+    (forall t, build_lalr G = Some t -> recognises G t) /\
+    (forall t, build_clr G = Some t -> recognises G t) /\
+    (build_slr G <> None -> build_lalr G <> None) /\
+    (build_lalr G <> None -> build_clr G <> None).
+
+(** What the proved theorems give towards [recognises] for a certified table: everything but
+    "rejected strings are non-sentences". *)
+Theorem C11_recognises_partial :
+  forall (G : gram) (tbl : table) (lbl : list (list sym)) (B : nat),
+    table_ok G tbl lbl = true -> term_ok B tbl = true ->
+    forall w, exists fuel,
+      (forall f, fuel <= f -> parse f tbl w = parse fuel tbl w) /\
+      match parse fuel tbl w with
+      | Accepted evs => L G w /\ rightmost_reverse G (prods_of evs) w /\
+                        yield (ast_of evs) = map Some w /\ postorder (ast_of evs) = prods_of evs
+      | Rejected _ _ => True
+      | Hang => False
+      end.
+Proof.
+  intros G tbl lbl B OK TOK w. exists (B * (1 + length w * (B + 1)) + 1).
+  destruct (C11_driver_terminates G tbl lbl B w _ OK TOK (le_n _)) as [Hn Hm].
+  split; [exact Hm|].
+  destruct (parse (B * (1 + length w * (B + 1)) + 1) tbl w) as [evs|r e|] eqn:E; auto.
+  destruct (C11_driver_sound G tbl lbl _ w evs OK E) as [H1 [H2 [_ [_ [H3 H4]]]]]. auto.
+Qed.
+
 (** The membership oracle used for the completeness search never lists a non-sentence. *)
 Theorem C11_oracle_sound :
   forall (G : gram) (fuel n : nat) (l : list (list nat)) (w : list nat),
@@ -71,3 +155,6 @@ Proof. vm_compute. repeat split. Qed.
 Print Assumptions C11_driver_sound.
 Print Assumptions C11_driver_terminates.
 Print Assumptions C11_oracle_sound.
+Print Assumptions C11_prec_resolve.
+Print Assumptions C11_prec.
+Print Assumptions C11_recognises_partial.
